@@ -1,52 +1,89 @@
 (* C20/Model.v — the --backup write protocol as file-system operations.
-   Source modelled: src/emitter/files_with_backup.rs:18-29 (FilesWithBackupEmitter::emit_formatted_file)
+   Source modelled: src/emitter/files_with_backup.rs (FilesWithBackupEmitter::emit_formatted_file)
        if original_text != formatted_text {
-           let tmp_name = filename.with_extension("tmp");
-           let bk_name = filename.with_extension("bk");
+           let (tmp_name, bk_name) = ...;                 // see "The names" below
+           let _ = fs::remove_file(&tmp_name);            // since the repair: a stale FILE.tmp may be a symbolic link
            fs::write(&tmp_name, formatted_text)?;
            fs::rename(filename, bk_name)?;
            fs::rename(tmp_name, filename)?;
        }
    and src/emitter/files.rs:29-34 (FilesEmitter: one fs::write over the original, for contrast).
-   File-system assumptions (trusted, POSIX on one file system): rename is atomic and, when it
-   fails, changes nothing; write is NOT atomic: a crash or an error during it leaves the target
-   holding any prefix of the data (possibly empty; the file exists once the write has started). *)
+   The file system: a path holds a regular file, a symbolic link or a (non-empty) directory.
+   Assumptions (trusted, POSIX on one file system):
+     rename moves the node itself (links are not followed), is atomic and, when it fails (missing source,
+       a non-empty directory in the way), changes nothing;
+     unlink removes the node itself (a link, not its target), fails on a directory and changes nothing then;
+     write FOLLOWS symbolic links (at most 40 of them, more is ELOOP), fails on a directory, and is NOT
+       atomic: a crash or an error during it leaves the target holding any prefix of the data (possibly
+       empty; the file exists once the write has started). *)
 From V Require Import Base.Text.
 
 Definition path := N.
-Definition fsstate := path -> option text.
+Inductive node : Type := File (t : text) | Link (target : path) | Dir.
+Definition fsstate := path -> option node.
 
-Definition upd (s : fsstate) (p : path) (v : option text) : fsstate :=
+Definition upd (s : fsstate) (p : path) (v : option node) : fsstate :=
   fun q => if N.eqb q p then v else s q.
 
 Inductive op : Type :=
+| Remove (p : path)                 (* let _ = fs::remove_file(p): its failure is ignored *)
 | Write (p : path) (data : text)
 | Rename (src dst : path).
 
-(* complete execution of one operation; a rename of a missing source is an error and changes nothing *)
+(* where an open-for-writing of p lands: symbolic links are followed *)
+Fixpoint resolve (fuel : nat) (s : fsstate) (p : path) : option path :=
+  match s p with
+  | Some (Link q) => match fuel with O => None | S n => resolve n s q end
+  | _ => Some p
+  end.
+Definition MAXSYMLINKS : nat := 40.
+Definition is_dir (s : fsstate) (p : path) : bool := match s p with Some Dir => true | _ => false end.
+
+(* what reading p gives (links followed) *)
+Definition read (s : fsstate) (p : path) : option text :=
+  match resolve MAXSYMLINKS s p with
+  | Some q => match s q with Some (File t) => Some t | _ => None end
+  | None => None
+  end.
+
+(* complete execution of one operation; None = the operation fails and changes nothing *)
 Definition exec (s : fsstate) (o : op) : option fsstate :=
   match o with
-  | Write p d => Some (upd s p (Some d))
+  | Remove p => Some (if is_dir s p then s else upd s p None)
+  | Write p d =>
+      match resolve MAXSYMLINKS s p with
+      | Some q => if is_dir s q then None else Some (upd s q (Some (File d)))
+      | None => None
+      end
   | Rename a b =>
       match s a with
-      | Some v => Some (upd (upd s b (Some v)) a None)
+      | Some v => if is_dir s b then None else Some (upd (upd s b (Some v)) a None)
       | None => None
       end
   end.
 
-(* the operation is interrupted (crash or I/O error): a write leaves the first k chars, a rename nothing *)
+(* the operation is interrupted (crash or I/O error): a write leaves the first k chars, the others nothing *)
 Definition interrupt (s : fsstate) (o : op) (k : nat) : fsstate :=
   match o with
-  | Write p d => upd s p (Some (firstn k d))
-  | Rename _ _ => s
+  | Write p d =>
+      match resolve MAXSYMLINKS s p with
+      | Some q => if is_dir s q then s else upd s q (Some (File (firstn k d)))
+      | None => s
+      end
+  | _ => s
   end.
 (* ... or fails before touching anything (e.g. open() fails) *)
 Definition untouched (s : fsstate) (o : op) : fsstate := s.
 
 Section Protocol.
-Variable tmp_of bk_of : path -> path.     (* Path::with_extension("tmp" / "bk") *)
+Variable tmp_of bk_of : path -> path.     (* the sibling names, see below *)
 
 Definition backup_ops (f : path) (orig fmt : text) : list op :=
+  if eqb_text orig fmt then []
+  else [Remove (tmp_of f); Write (tmp_of f) fmt; Rename f (bk_of f); Rename (tmp_of f) f].
+
+(* before the repair: the temporary file was written through whatever FILE.tmp already was *)
+Definition backup_ops_pre (f : path) (orig fmt : text) : list op :=
   if eqb_text orig fmt then []
   else [Write (tmp_of f) fmt; Rename f (bk_of f); Rename (tmp_of f) f].
 
@@ -79,8 +116,8 @@ End Protocol.
 
 (* the property's invariant for file f with original text orig and formatted text fmt *)
 Definition Inv (f bk : path) (orig fmt : text) (s : fsstate) : Prop :=
-  (s f = Some orig \/ s bk = Some orig) /\
-  (forall b, s f = Some b -> b = orig \/ b = fmt).
+  (read s f = Some orig \/ read s bk = Some orig) /\
+  (forall b, read s f = Some b -> b = orig \/ b = fmt).
 
 (* ---------------------------------------------------------------------------------------------
    The names.  files_with_backup.rs (after the repair of the name collision):
